@@ -49,7 +49,7 @@ func loadProg(repo string) (*Prog, error) {
 		Mode:  packages.LoadSyntax | packages.NeedModule,
 		Dir:   repo,
 		Tests: false,
-		Env:   append(os.Environ(), "GOFLAGS=-mod=mod", "GOPROXY=off", "GOSUMDB=off", "GOWORK=off", "GOTOOLCHAIN=local"),
+		Env:   append(os.Environ(), "GOFLAGS=-mod=mod -trimpath", "GOPROXY=off", "GOSUMDB=off", "GOWORK=off", "GOTOOLCHAIN=local"),
 	}
 	pkgs, err := packages.Load(cfg, "./...")
 	if err != nil {
